@@ -15,6 +15,9 @@ import (
 
 const stepTimeout = 30 * time.Second
 
+// a free run settles in milliseconds, except for teardown back-off (100 ms .. 3 s per failed attempt, tdErrP <= 0.3)
+const freeTimeout = 60 * time.Second
+
 type scriptIn struct {
 	ID   int      `json:"id"`
 	Stim []string `json:"stim"`
@@ -227,7 +230,7 @@ func runFree(id int, seed int64) scriptResult {
 	}()
 	wg.Wait()
 	status := "ok"
-	if err := w.waitFor("quiescence", 4*time.Minute, func() bool {
+	if err := w.waitFor("quiescence", freeTimeout, func() bool {
 		return w.stableLocked() && w.inCall == 0 && !w.hnGateHeld
 	}); err != nil {
 		status = "stuck: " + err.Error()
@@ -350,11 +353,22 @@ func Main(args []string) int {
 			emit(sc.ID, res)
 		}
 	case "free":
+		stuckN := 0
 		for i := 0; i < *runs; i++ {
+			if stuckN >= 3 {
+				head := blank("reset", "H", -1)
+				head.ID, head.Script = i, "free (skipped)"
+				emit(i, scriptResult{recs: []rec{head, blank("skipped", "H", 0)}, status: "ok"})
+				continue
+			}
 			if *verbose {
 				fmt.Fprintln(os.Stderr, "free run", i)
 			}
-			emit(i, runFree(i, *seed*1000003+int64(i)))
+			res := runFree(i, *seed*1000003+int64(i))
+			if res.status != "ok" {
+				stuckN++
+			}
+			emit(i, res)
 		}
 	default:
 		fmt.Fprintln(os.Stderr, "unknown sub-command", args[0])
